@@ -699,9 +699,84 @@ def _bound(node):
     return out
 
 
-def translate_file(path):
+# ------------------------------------------------------------------ the C twin
+
+SB_FIELDS = ["PyObject_HEAD", "_implied", "#if USE_EXPLICIT_WEAKREFLIST", "weakreflist", "#endif",
+             "_dependents", "_bases", "_v_attrs", "__iro__", "__sro__"]
+# SB_extends, comments removed, white space squeezed.  The one accepted shape: look the argument
+# up in self->_implied and answer with the outcome of exactly that lookup.
+SB_EXTENDS_BODY = (
+    "PyObject* implied; int contains; implied = self->_implied; "
+    "if (implied == NULL) { PyErr_SetString(PyExc_AttributeError, \"_implied\"); return NULL; } "
+    "Py_INCREF(implied); contains = PySequence_Contains(implied, other); Py_DECREF(implied); "
+    "if (contains < 0) return NULL; if (contains) Py_RETURN_TRUE; Py_RETURN_FALSE;")
+
+
+def _c_strip(text):
+    import re
+    text = re.sub(r"/\*.*?\*/", " ", text, flags=re.S)
+    return text
+
+
+def _c_block(text, start):
+    """text[start] == '{' -> the text between the matching braces"""
+    depth = 0
+    for i in range(start, len(text)):
+        if text[i] == "{":
+            depth += 1
+        elif text[i] == "}":
+            depth -= 1
+            if depth == 0:
+                return text[start + 1:i]
+    raise TranslationError("unbalanced braces in the C source")
+
+
+def translate_c(ctext, origin="_zope_interface_coptimizations.c"):
+    """struct SB and SB_extends (the C isOrExtends / __call__, also used by providedBy) -> Gallina.
+    Fail closed: a new struct member (a place to keep state the Python code does not know about) or
+    any other statement in SB_extends is refused."""
+    import re
+    text = _c_strip(ctext)
+    m = list(re.finditer(r"typedef\s+struct\s*\{", text))
+    sb = None
+    for mm in m:
+        body = _c_block(text, mm.end() - 1)
+        tail = text[mm.end() + len(body):mm.end() + len(body) + 40]
+        if re.match(r"\}\s*SB\s*;", tail):
+            sb = body
+    if sb is None:
+        raise TranslationError("%s: struct SB not found" % origin)
+    fields = []
+    for line in sb.split("\n"):
+        line = " ".join(line.split())
+        if not line:
+            continue
+        mm = re.match(r"PyObject\* ?(\w+);$", line)
+        fields.append(mm.group(1) if mm else line)
+    if fields != SB_FIELDS:
+        raise TranslationError("%s: struct SB has members %r, expected %r (state the model does not know about)"
+                               % (origin, fields, SB_FIELDS))
+    heads = list(re.finditer(r"static\s+PyObject\s*\*\s*SB_extends\s*\(\s*SB\s*\*\s*self\s*,\s*PyObject\s*\*\s*other\s*\)\s*\{", text))
+    if len(heads) != 1:
+        raise TranslationError("%s: expected exactly one definition of SB_extends(SB* self, PyObject* other)" % origin)
+    body = " ".join(_c_block(text, heads[0].end() - 1).split())
+    if body != SB_EXTENDS_BODY:
+        raise TranslationError("%s: SB_extends has an unknown body: %s" % (origin, body[:300]))
+    if not re.search(r'\{\s*"isOrExtends",\s*\(PyCFunction\)SB_extends,\s*METH_O', text):
+        raise TranslationError("%s: isOrExtends is no longer SB_extends / METH_O" % origin)
+    return ("(* C twin, %s: struct SB has exactly the members %s;\n"
+            "   SB_extends: PySequence_Contains(self->_implied, other), nothing remembered between calls *)\n"
+            "Definition k_c_isOrExtends (st : state) (self v_other : node) : bool :=\n"
+            "  (mem v_other (implied st self)).\n" % (origin, ", ".join(f for f in SB_FIELDS if not f.startswith("#"))))
+
+
+def translate_file(path, cpath=None):
     with open(path) as fh:
-        return translate_source(fh.read(), origin=path)
+        out = translate_source(fh.read(), origin=path)
+    if cpath is not None:
+        with open(cpath) as fh:
+            out += "\n" + translate_c(fh.read(), origin=cpath)
+    return out
 
 
 # The text this framework was developed against; used only when the current source is refused, so
@@ -800,9 +875,11 @@ Specification._ROOT = Interface
 
 
 def pinned():
-    return translate_source(PINNED_SOURCE, origin="<pinned copy in harness/translate/specgraph.py>")
+    return (translate_source(PINNED_SOURCE, origin="<pinned copy in harness/translate/specgraph.py>")
+            + "\n(* pinned *)\nDefinition k_c_isOrExtends (st : state) (self v_other : node) : bool :=\n"
+              "  (mem v_other (implied st self)).\n")
 
 
 if __name__ == "__main__":  # python -m harness.translate.specgraph /repo/src/zope/interface/interface.py
     import sys
-    print(translate_file(sys.argv[1]))
+    print(translate_file(sys.argv[1], sys.argv[2] if len(sys.argv) > 2 else None))
